@@ -220,13 +220,37 @@ def r2_sbx(ctx, repo, clip_params):
     if not ok_start:
         ctx.violated("R2", C, where(mod, fn), "the children do not start as copies of the parents (%s)" % {k: text(v) for k, v in starts.items()})
         return
-    lp = [s for s in stmts_of(fn) if isinstance(s, ast.For) and isinstance(s.iter, ast.Call) and access_path(s.iter.func) == "enumerate"
-          and access_path(s.iter.args[0]) == selfn + ".parameters"]
-    if len(lp) != 1:
+    # the per-parameter loop: some loop variable is an element of self.parameters; the coordinate that is written must
+    # have the same index as the parameter whose bounds clip it
+    from ..terms import self_effects_of
+    TS_ = Terms(fn, self_effects=self_effects_of(repo, cls))
+    lp = None
+    for cand in [s_ for s_ in stmts_of(fn) if isinstance(s_, ast.For)]:
+        info = TS_.loop_of(cand)
+        for v_, el_ in getattr(info, "valid_elems", {}).items() if info is not None else ():
+            if isinstance(el_, ast.Subscript) and access_path(el_.value) == selfn + ".parameters":
+                lp = (cand, info, v_, el_)
+    if lp is None:
         ctx.inconclusive("R2", C, where(mod, fn), "per-parameter loop not found")
         return
-    lp = lp[0]
-    iv, pv = lp.target.elts[0].id, lp.target.elts[1].id
+    lp, linfo, pv, pel = lp
+    pidx = text(pel.slice)                     # index of the parameter as an expression over the loop index
+    coord_idx = set()
+    for s_ in stmts_of(lp):
+        if isinstance(s_, ast.Assign):
+            for t_ in s_.targets:
+                for tt in (t_.elts if isinstance(t_, ast.Tuple) else [t_]):
+                    if isinstance(tt, ast.Subscript) and access_path(tt.value) in kids:
+                        coord_idx.add(text(TS_.expand(tt.slice, at=s_, elems=True)))
+    if coord_idx and coord_idx != {pidx}:
+        ctx.violated("R2", C, where(mod, lp), "child coordinate %s is clipped with the bounds of parameter %s (loop `for %s in %s`): a coordinate is moved and clipped "
+                     "inside another parameter's box" % (sorted(coord_idx)[0], pidx, text(lp.target), text(lp.iter)))
+        return
+    iv = [n_.id for n_ in ast.walk(lp.target) if isinstance(n_, ast.Name) and n_.id != pv]
+    if len(iv) != 1:
+        ctx.inconclusive("R2", C, where(mod, lp), "coordinate index of the per-parameter loop not recognised")
+        return
+    iv = iv[0]
     bad = None
     npaths = 0
     for p in Enumerator(loop_counts=(0, 1)).function_paths(body_fn(lp.body, fn.args, lp.lineno)):
